@@ -10,7 +10,10 @@
    inputs of the operation (an explicit supply); the clock is an input; KeyJar.load_keys is an
    environment function whose verdict on the request's jwks is an input bit. *)
 From Coq Require Import String.
-From Verif Require Import Lib.Base Lib.PyStr Lib.Urlenc Model.RegUri.
+From Verif Require Import Lib.Base.
+From Verif Require Import Lib.PyStr.
+From Verif Require Import Lib.Urlenc.
+From Verif Require Import Model.RegUri.
 Open Scope N_scope.
 
 Notation dict := (list (pystr * pyval)).
